@@ -10,7 +10,7 @@ ASSUMPTIONS = ["whole 16-byte records; day masks 0 or even 2..254 are judged by 
                "the display text is C13's subject and is not part of this check's view"]
 RULE = ("replies built by the Spec encoder holding 0..8 records with ids (including duplicates), all kinds of masks, start and end "
         "instants around the virtual now, 40 % of the nows within a day of a zone transition, in several zones; truncated and empty "
-        "replies; create_schedule -> captured record -> listed back through the parser; non-trivial = distinct replies with at least "
+        "replies; the same replies listed in one process whose host zone is switched in between; create_schedule -> captured record -> listed back through the parser; non-trivial = distinct replies with at least "
         "one record")
 REQUIREMENT = ("parsed set = one schedule per distinct slot id with that record's id, recurrence flag (mask != 0), day set (bit d+1 = "
                "weekday d), local start / end HH:MM (oracle: zoneinfo) and duration (end - start) mod 24 h; empty reply: no schedules; "
@@ -64,6 +64,26 @@ def run_zone(out, stream, zone, cases):
                      classify=lambda c, i: zone + ("/raised" if i == "raised" else "/%d-schedules" % (i.count("|") + 1 if i else 0)))
 
 
+def run_zone_changes(out, rnd, zones, n):
+    """one process, the host zone switched between replies (TZ + tzset): the same records listed under one zone, then another,
+    then the first again"""
+    base = [gen_case(rnd, zones[0], now) for now in world.interesting_instants(rnd, zones[0], n)]
+    cases = []
+    for c in base:
+        order = rnd.sample(zones, min(3, len(zones))); order.append(order[0])
+        for z in order: cases.append(dict(c, zone=z))
+    msgs = [bytes.fromhex(m) for m in lib.run_model([lib.req("schedules_encode", bytes.fromhex(c["hdr"]), c["recs"], bytes.fromhex(c["tail"])) for c in cases])]
+    full = world.zone_job(zones[0], "schedules", [{"now": c["now"], "msg": m.hex(), "zone": c["zone"]} for c, m in zip(cases, msgs)])
+    mo = []
+    for c, m in zip(cases, msgs):
+        zd, tr = world.zone_args(c["zone"])
+        t = lib.run_model([lib.req("schedules", zd, tr, c["now"], m)])[0]
+        mo.append(t if t == "raised" else "|".join(sorted([x for x in t.split("|") if x], key=lambda r: int(r.split(",")[0]))))
+    ex = [oracle(c["zone"], c["recs"]) for c in cases]
+    lib.differential(out, "host-zone-changed-within-one-process", cases, [strip_display(t) for t in full], [strip_display(t) for t in mo], ex, describe,
+                     nontrivial=lambda c: len(c["recs"]) > 0, sample=describe, classify=lambda c, i: "zone-change/" + c["zone"])
+
+
 def run_readback(out, stream, zone, rnd, n):
     cases = []
     for now in world.interesting_instants(rnd, zone, n):
@@ -100,9 +120,12 @@ def run(tier, rnd, out):
         cs.append({"zone": zone, "now": nows[0], "recs": [], "hdr": "", "tail": "", "cut": 0})
         run_zone(out, "listed-replies", zone, cs)
         run_readback(out, "create-then-list-back", zone, rnd, 30 if tier == "quick" else 200)
+    run_zone_changes(out, rnd, zones, 25 if tier == "quick" else 300)
 
 
 def replay(rp, out):
     c = rp["input"]
-    if "recs" in c: run_zone(out, rp.get("stream", "replay"), c["zone"], [c])
+    if "recs" in c and rp.get("stream") == "host-zone-changed-within-one-process":
+        import random; run_zone_changes(out, random.Random(int(rp.get("seed", 1))), world.ZONES_QUICK[:6], 25)      # a sequence: the stream is the replay
+    elif "recs" in c: run_zone(out, rp.get("stream", "replay"), c["zone"], [c])
     else: out.notes.append("read-back case: re-run the check to replay")
